@@ -136,4 +136,24 @@ TEXT["C19"] = dict(engine="verus+kani",
          "prefix length the loader admits (complete Kani), the host-range expansions cannot overflow for any length 0..=32, a forward route without servers yields an error reply.",
    note="NOT decided: totality of yaml_rust::YamlLoader and of load_config_from_string's dispatch as a whole; str_prefix*/str_hwaddr/parse_array/parse_routes bodies (split/parse/iterator chains); that every manual example loads (that is a test, and the suite has it).")
 
+# ---- revisions (later rounds) ----
+TEXT["C02"].update(note="NOT decided: apply-range (inclusive range loop: no vstd ghost-iterator spec for RangeInclusive; yaml containers block Kani); YAML -> values. "
+    "Reservation subtraction (an address reserved by a more specific policy) IS decided: unit dhcpused. Policy override of address sets: C11.")
+TEXT["C12"].update(engine="kani+verus",
+    technique="Kani complete harnesses on the real Dhcp::get_broadcast_flag and on the Internet checksum (partial_netsum/finish_netsum against a reference fold); "
+              "Verus exact decoding contract on dhcppkt::parse_options (RFC 2132/3396: pad, end, concatenation of repeated options)",
+    level="Complete (Kani): get_broadcast_flag() <=> flags & 0x8000 != 0 over all 65536 flag values; finish_netsum is the end-around-carry fold for all 2^32 partial sums and agrees with an independent reference. "
+          "Unbounded deductive (Verus): parse_options returns exactly the RFC decoding of any option area (repeated options concatenated, zero-length options kept, pad skipped, end stops). "
+          "Thorough tier only, and reported undecided when CBMC times out: whole-frame length/checksum harnesses (udp4_frame_valid_len*).",
+    note="NOT decided: encode-then-decode round trip for whole DHCP messages (serialise iterates a HashMap; option values longer than 255 octets are NOT split by the encoder: observation D12b, DESIGN 8), "
+         "Ethernet/IPv4/UDP frame assembly beyond the checksum primitives (Kani times out on the Vec/Box frame builders; not yet in Verus).")
+TEXT["C16"].update(engine="verus+kani",
+    technique="Verus contracts on GenericTokenBucket::{get_tokens_with_time,check,deplete} + inductive rate-bound lemma over the contracts; R9 slice of should_ratelimit (cost of a REFUSED reply); "
+              "Verus contracts on CookieKeys::{new,rotate} and validate_cookie_key(s) with HMAC uninterpreted; Kani function contracts on check/deplete with native replay",
+    note="KNOWN FINDING D16 (recorded, not repaired: the repair is a policy decision, see DESIGN 8): the minimum charge of a REFUSED reply is 200 tokens, the bucket holds 100, so a source without a valid cookie never gets a REFUSED (quiet-client clause). "
+         "Assumed: std::cmp::max and u32::div_ceil specs; clock in [50, 0xF0000000]; deplete at the same clock reading as its check; HMAC-SHA256 collision-free; the two-bucket hashing and the RwLock read-then-write race are not under contract.")
+TEXT["C08"].update(note="Assumed: v6 prefixlen <= 128 (established by the loader fix c95f480). NOT under contract: Acl::check first-match iteration and the entry points (DnsAclHandler, http serve_request) -- "
+    "the missing ACL check on /api/v1/leases.json (D8b) was found by reading and fixed (e88efee), not by a check that is still running.")
+TEXT["C05"].update(note=TEXT["C05"].get("note", "") + " ICMPv6 (radv/icmppkt.rs parse*) is NOT yet under contract; its serialiser is (C17).")
+
 NA = {}
